@@ -74,4 +74,7 @@ def run_ring(ctx):
     ctx.gen_obligation("Gen_Bell.v type-checks", r.ok, r.err[-300:])
     oracle(ctx, json.load(open(jpath)))
     res = ctx.props("C10_ring")
+    if res.ok:
+        # instantiation at the complex numbers (axioms of the reals, named in the evidence)
+        qc.complex_props(ctx, "C10_ring_complex")
     return bool(r.ok and res.ok)
